@@ -9,6 +9,7 @@ from vf.models import refstats
 common.use_repo()
 from pydsol.core.interfaces import StatEvents                    # noqa: E402
 from pydsol.core.pubsub import EventListener                      # noqa: E402
+from pydsol.core.units import Duration                            # noqa: E402
 from pydsol.core.statistics import (WeightedTally, TimestampWeightedTally,   # noqa: E402
                                     EventBasedWeightedTally,
                                     EventBasedTimestampWeightedTally)
@@ -99,8 +100,13 @@ def generate(seed, tier, idx=0):
     else:
         t = rng.choice([0.0, 0.0, 1.0, 10.0, 100.5])
         closed = False
+        fine = rng.random() < 0.2          # distinct timestamps that are relatively very close
+        if fine:
+            t = rng.choice([1000.0, 1e6, 86400.0 * 365])
         for _ in range(n):
             dt = rng.choice([0, 0, 0.5, 1, 1, 2, 0.25, 3.0])
+            if fine:
+                dt = rng.choice([0, 1e-7, 1e-6, 1e-4, 2 ** -20, 1e-9 * t, 1.0])
             t = t + dt
             ops.append(["reg", t, val()])
             r = rng.random()
@@ -113,13 +119,13 @@ def generate(seed, tier, idx=0):
             elif r < 0.16:
                 ops.append(["query"])
             elif r < 0.22 and not closed:
-                t = t + rng.choice([0, 0.5, 1, 4])
+                t = t + (rng.choice([0, 0.5, 1, 4]) if not fine else rng.choice([0, 1e-6, 1e-7, 1.0]))
                 ops.append(["end", t])
                 closed = True
         if not closed and rng.random() < 0.6:
-            t = t + rng.choice([0, 0.5, 2])
+            t = t + (rng.choice([0, 0.5, 2]) if not fine else rng.choice([0, 1e-6, 1e-7, 2.0]))
             ops.append(["end", t])
-    return {"kind": kind, "variant": variant, "ops": ops}
+    return {"kind": kind, "variant": variant, "ops": ops, "quantities": rng.random() < 0.1}
 
 
 class Sub(EventListener):
@@ -217,8 +223,14 @@ def run(case):
         name = op[0]
         if name == "reg":
             before = text(read(st)) if closed_at is not None else None
+            a1, a2 = op[1], op[2]
+            if case.get("quantities") and i % 3 == 0:
+                # weights / timestamps / values given as quantities (float subclass)
+                a1 = Duration(float(a1), "s")
+                if i % 2 == 0:
+                    a2 = Duration(float(a2), "s")
             try:
-                st.register(op[1], op[2])
+                st.register(a1, a2)
             except Exception as e:
                 return ("register-raised", "op #%d register(%r, %r) raised %s: %s "
                         "(previous observations %s)" % (i, op[1], op[2], type(e).__name__,
